@@ -487,3 +487,300 @@ Proof.
   - destruct (Hgen false (sec_remove (t_ctx t) n)) as [n1 [H1 [W' E]]]. rewrite H1. cbn [bind].
     eexists _, _. split; [reflexivity|]. split; [exact W'|]. split; [exact E | reflexivity].
 Qed.
+
+(* ------------------------------------------------------------------ remove *)
+
+Lemma remove_refines t n : WF t -> pre (abs t) (ORemove n) -> refines t (ORemove n).
+Proof.
+  intros W Hn. cbn [pre] in Hn. apply abs_live in Hn.
+  destruct (live_parents t n W Hn) as [pp Hpp]. destruct (live_children t n W Hn) as [ln Hln].
+  assert (Hnb : exists b, sm_get (t_nodes t) n = Some b) by (unfold tlive in Hn; destruct (sm_get (t_nodes t) n); [eauto|congruence]).
+  destruct Hnb as [b Hnb].
+  (* step 1: the parent's list loses n; uniformly: every list loses n *)
+  assert (H1 : exists ch1,
+             match pp with
+             | Some parent =>
+                 ch <- match sm_get (t_children t) parent with
+                       | Some l => sm_set (t_children t) parent (retain_ne n l)
+                       | None => Ok (t_children t)
+                       end ;;
+                 _ <- mark_dirty t parent ;; Ok ch
+             | None => Ok (t_children t)
+             end = Ok ch1 /\ shape ch1 = shape (t_children t) /\ sm_inv ch1 /\
+             forall q, sm_get ch1 q = option_map (retain_ne n) (sm_get (t_children t) q)).
+  { destruct pp as [par|].
+    - destruct (wf_up t W n par Hpp) as [lp [Hlp Hnlp]]. rewrite Hlp.
+      destruct (sm_set_Ok (t_children t) par (retain_ne n lp)) as [ch1 Hch1]; [congruence|].
+      exists ch1. rewrite Hch1. cbn [bind]. rewrite (live_mark_dirty t par (children_live t par lp W Hlp)). cbn [bind].
+      split; [reflexivity|]. split; [apply (shape_set Hch1)|]. split; [apply (sm_set_preserves_inv Hch1), W|].
+      intros q. rewrite (sm_get_set q Hch1). destruct (key_eqb_spec par q) as [<-|Hne].
+      + rewrite Hlp. reflexivity.
+      + destruct (sm_get (t_children t) q) as [lq|] eqn:Hq; [|reflexivity]. simpl. f_equal. symmetry.
+        apply retain_ne_notin. intros Hin. apply Hne. eapply (WF_disjoint t par q lp lq n); eauto.
+    - exists (t_children t). split; [reflexivity|]. split; [reflexivity|]. split; [apply W|].
+      intros q. destruct (sm_get (t_children t) q) as [lq|] eqn:Hq; [|reflexivity]. simpl. f_equal. symmetry.
+      apply retain_ne_notin. intros Hin. destruct (wf_down t W q lq Hq) as [_ Hd]. specialize (Hd n Hin). congruence. }
+  destruct H1 as [ch1 [E1 [S1 [I1 G1]]]].
+  (* step 2: orphan n's children *)
+  assert (Hch1n : sm_get ch1 n = Some (retain_ne n ln)) by (rewrite G1, Hln; reflexivity).
+  destruct (sm_set_all_spec (retain_ne n ln) (t_parents t) None) as [p1 [E2 [G2 [_ I2]]]].
+  { intros k Hk. apply In_retain_ne in Hk. destruct (wf_down t W n ln Hln) as [_ Hd]. rewrite (Hd k); [congruence|tauto]. }
+  pose proof (shape_set_all _ _ _ _ E2) as S2. specialize (I2 (wf_inv_p t W)).
+  (* step 3: the three removals *)
+  assert (Hp1n : exists v, sm_get p1 n = Some v).
+  { rewrite G2. destruct (mem n (retain_ne n ln)); eauto. }
+  destruct Hp1n as [v1 Hp1n].
+  destruct (sm_remove_spec ch1 n _ I1 Hch1n) as [Gc [Ic _]].
+  destruct (sm_remove_spec p1 n _ I2 Hp1n) as [Gp [Ip _]].
+  destruct (sm_remove_spec (t_nodes t) n _ (wf_inv_n t W) Hnb) as [Gn [In' _]].
+  unfold refines. cbn [step spec_step fst snd]. unfold remove, sm_index. rewrite Hpp. cbn [of_opt bind].
+  rewrite E1. cbn [bind]. rewrite Hch1n, E2. cbn [bind].
+  eexists _, _. split; [reflexivity|].
+  assert (Hdn : forall x, In x ln -> sm_get (t_parents t) x = Some (Some n)) by (apply (wf_down t W n ln Hln)).
+  split; [|split; [|reflexivity]].
+  - constructor; cbn [t_nodes t_children t_parents]; auto.
+    + apply shape_remove_congr. rewrite S1. apply W.
+    + apply shape_remove_congr. rewrite S2. apply W.
+    + intros q lq Hq. rewrite Gc in Hq. destruct (key_eqb_spec n q) as [<-|Hnq]; [discriminate|].
+      rewrite G1 in Hq. destruct (sm_get (t_children t) q) as [lq0|] eqn:Hq0; [|discriminate]. inversion Hq; subst lq.
+      destruct (wf_down t W q lq0 Hq0) as [Hnd Hd]. split; [apply NoDup_retain_ne; exact Hnd|].
+      intros x Hx. apply In_retain_ne in Hx. destruct Hx as [Hx Hxn]. rewrite Gp.
+      destruct (key_eqb_spec n x) as [<-|_]; [congruence|]. rewrite G2.
+      destruct (mem x (retain_ne n ln)) eqn:Em; [|apply Hd; exact Hx].
+      apply mem_In, In_retain_ne in Em. exfalso. apply Hnq. eapply (WF_disjoint t n q ln lq0 x); eauto. tauto.
+    + intros x q Hx. rewrite Gp in Hx. destruct (key_eqb_spec n x) as [<-|Hnx]; [discriminate|].
+      rewrite G2 in Hx. destruct (mem x (retain_ne n ln)) eqn:Em; [discriminate|]. apply mem_false in Em.
+      destruct (wf_up t W x q Hx) as [lq0 [Hq0 Hxq]].
+      assert (Hqn : n <> q).
+      { intros <-. assert (lq0 = ln) by congruence. subst lq0. apply Em. apply In_retain_ne. split; [exact Hxq|congruence]. }
+      rewrite Gc. destruct (key_eqb_spec n q); [congruence|]. rewrite G1, Hq0. simpl.
+      exists (retain_ne n lq0). split; [reflexivity|]. apply In_retain_ne. split; [exact Hxq|congruence].
+  - unfold spec_equiv. cbn [live kids].
+    assert (Hmem : forall k, In k (live (abs (mkTree (fst (sm_remove (t_nodes t) n)) (t_ctx t) (fst (sm_remove ch1 n)) (fst (sm_remove p1 n))))) <->
+                             In k (filter (fun x => negb (key_eqb x n)) (live (abs t)))).
+    { intros k. rewrite filter_In, !abs_live. unfold tlive. cbn [t_nodes]. rewrite Gn, (key_eqb_sym k n).
+      destruct (key_eqb_spec n k); simpl; intuition congruence. }
+    split; [exact Hmem|]. split.
+    + apply NoDup_same_length; [apply sm_keys_NoDup | apply NoDup_filter; apply sm_keys_NoDup | exact Hmem].
+    + intros k Hk. apply Hmem in Hk. apply filter_In in Hk. destruct Hk as [_ Hkn].
+      unfold abs. cbn [kids t_children]. rewrite Gc, (key_eqb_sym n k).
+      destruct (key_eqb k n); [discriminate|]. rewrite G1.
+      destruct (sm_get (t_children t) k); reflexivity.
+Qed.
+
+(* ------------------------------------------------------------------ clear *)
+
+Lemma clear_refines t : WF t -> refines t OClear.
+Proof.
+  intros W. unfold refines. cbn [step spec_step fst snd]. unfold clear.
+  eexists _, _. split; [reflexivity|].
+  destruct (sm_clear_spec (t_nodes t) (wf_inv_n t W)) as [In' Gn].
+  destruct (sm_clear_spec (t_children t) (wf_inv_c t W)) as [Ic Gc].
+  destruct (sm_clear_spec (t_parents t) (wf_inv_p t W)) as [Ip Gp].
+  split; [|split; [|reflexivity]].
+  - constructor; cbn [t_nodes t_children t_parents]; auto.
+    + rewrite !shape_clear. rewrite (wf_shape_c t W). reflexivity.
+    + rewrite !shape_clear. rewrite (wf_shape_p t W). reflexivity.
+    + intros p l H. rewrite Gc in H. discriminate.
+    + intros c p H. rewrite Gp in H. discriminate.
+  - unfold spec_equiv, abs. cbn [live kids t_nodes]. rewrite (sm_keys_nil _ Gn). simpl. repeat split; tauto.
+Qed.
+
+(* ------------------------------------------------------------------ set_children *)
+
+Definition notin (D : list key) : key -> bool := fun x => negb (mem x D).
+
+Lemma mem_app x a b : mem x (a ++ b) = (mem x a || mem x b)%bool.
+Proof. unfold mem. apply existsb_app. Qed.
+
+Lemma mem_single x c : mem x [c] = key_eqb x c.
+Proof. unfold mem. simpl. apply orb_false_r. Qed.
+
+Lemma filter_notin_snoc D c l : filter (notin (D ++ [c])) l = retain_ne c (filter (notin D) l).
+Proof.
+  unfold retain_ne. induction l as [|x r IH]; simpl; [reflexivity|].
+  assert (E : notin (D ++ [c]) x = (notin D x && negb (key_eqb x c))%bool)
+    by (unfold notin; rewrite mem_app, mem_single, negb_orb; reflexivity).
+  rewrite E. destruct (notin D x); simpl.
+  - destruct (key_eqb x c); simpl; [exact IH | f_equal; exact IH].
+  - exact IH.
+Qed.
+
+Lemma filter_notin_snoc_notin D c l : ~ In c l -> filter (notin (D ++ [c])) l = filter (notin D) l.
+Proof.
+  intros H. rewrite filter_notin_snoc. apply retain_ne_notin. intros Hin. apply filter_In in Hin. tauto.
+Qed.
+
+Lemma mem_snoc_other x c D : x <> c -> mem x (D ++ [c]) = mem x D.
+Proof. intros H. rewrite mem_app, mem_single. destruct (key_eqb_spec x c); [congruence|]. apply orb_false_r. Qed.
+
+Lemma mem_snoc_same c D : mem c (D ++ [c]) = true.
+Proof. rewrite mem_app, mem_single, key_eqb_refl. apply orb_true_r. Qed.
+
+(* the state inside the second loop of set_children, relative to the tree t the call started from:
+   D = the new children processed so far, old = p's previous child list *)
+Record loopJ (t u : tree) (p : key) (old D : list key) : Prop := mkJ {
+  j_nodes : t_nodes u = t_nodes t;
+  j_ctx : t_ctx u = t_ctx t;
+  j_sc : shape (t_children u) = shape (t_children t);
+  j_ic : sm_inv (t_children u);
+  j_sp : shape (t_parents u) = shape (t_parents t);
+  j_ip : sm_inv (t_parents u);
+  j_c : forall q, sm_get (t_children u) q =
+                  if key_eqb q p then Some old else option_map (filter (notin D)) (sm_get (t_children t) q);
+  j_p : forall x, sm_get (t_parents u) x =
+                  if mem x D then Some (Some p) else if mem x old then Some None else sm_get (t_parents t) x
+}.
+
+(* one iteration that does not have to detach the child (it was a child of p, or a root) *)
+Lemma loop_skip t u p old D c p1 :
+  WF t -> sm_get (t_children t) p = Some old -> loopJ t u p old D ->
+  (forall q lq, q <> p -> sm_get (t_children t) q = Some lq -> ~ In c lq) ->
+  sm_set (t_parents u) c (Some p) = Ok p1 ->
+  loopJ t (set_parents_map u p1) p old (D ++ [c]).
+Proof.
+  intros W Hold J Hno Hp1. destruct J. constructor; cbn [set_parents_map t_nodes t_ctx t_children t_parents]; auto.
+  - rewrite (shape_set Hp1). exact j_sp0.
+  - apply (sm_set_preserves_inv Hp1). exact j_ip0.
+  - intros q. rewrite j_c0. destruct (key_eqb_spec q p) as [->|Hq]; [reflexivity|].
+    destruct (sm_get (t_children t) q) as [lq|] eqn:E; [|reflexivity]. simpl. f_equal. symmetry.
+    apply filter_notin_snoc_notin. eapply Hno; eauto.
+  - intros x. rewrite (sm_get_set x Hp1). destruct (key_eqb_spec c x) as [<-|Hx].
+    + rewrite mem_snoc_same. reflexivity.
+    + rewrite mem_snoc_other by congruence. apply j_p0.
+Qed.
+
+Lemma set_children_loop_spec t p old : WF t -> sm_get (t_children t) p = Some old ->
+  forall cs D u, loopJ t u p old D -> NoDup cs -> (forall c, In c cs -> tlive t c /\ ~ In c D) ->
+  exists t2, set_children_loop u p cs = Ok t2 /\ loopJ t t2 p old (D ++ cs).
+Proof.
+  intros W Hold. induction cs as [|c r IH]; intros D u J Hnd Hcs.
+  - exists u. rewrite app_nil_r. split; [reflexivity | exact J].
+  - destruct (Hcs c (or_introl eq_refl)) as [Hc HcD]. inversion Hnd as [|? ? Hcr Hndr]; subst.
+    assert (Hrest : forall D', (forall x, In x D' <-> In x D \/ x = c) -> forall c', In c' r -> tlive t c' /\ ~ In c' D').
+    { intros D' HD c' Hc'. destruct (Hcs c' (or_intror Hc')) as [H1 H2]. split; [exact H1|].
+      rewrite HD. intros [H|H]; [tauto|congruence]. }
+    assert (HD1 : forall x, In x (D ++ [c]) <-> In x D \/ x = c).
+    { intros x. rewrite in_app_iff. simpl. intuition. }
+    destruct (live_parents t c W Hc) as [ppc Hppc].
+    assert (HmD : mem c D = false) by (apply mem_false; exact HcD).
+    cbn [set_children_loop]. unfold sm_index at 1. rewrite (j_p _ _ _ _ _ J c), HmD.
+    assert (Hlive_tt : sm_get (t_parents u) c <> None).
+    { rewrite (j_p _ _ _ _ _ J c), HmD. destruct (mem c old); congruence. }
+    (* the continuation shared by all cases *)
+    assert (Hfin : forall u', loopJ t u' p old (D ++ [c]) ->
+                   exists t2, set_children_loop u' p r = Ok t2 /\ loopJ t t2 p old (D ++ c :: r)).
+    { intros u' J'. destruct (IH (D ++ [c]) u' J' Hndr (Hrest _ HD1)) as [t2 [E2 J2]].
+      exists t2. split; [exact E2|]. rewrite <- app_assoc in J2. exact J2. }
+    destruct (mem c old) eqn:Emo.
+    + (* c was already a child of p: its pointer was cleared by the first loop *)
+      cbn [of_opt bind]. destruct (sm_set_Ok (t_parents u) c (Some p) Hlive_tt) as [p1 Hp1]. rewrite Hp1. cbn [bind].
+      apply Hfin. eapply loop_skip; eauto.
+      intros q lq Hq Hlq Hin. apply Hq. symmetry. apply mem_In in Emo. eapply (WF_disjoint t p q old lq c); eauto.
+    + rewrite Hppc. cbn [of_opt bind]. destruct ppc as [prev|].
+      * (* c has another parent: detach it there first *)
+        destruct (wf_up t W c prev Hppc) as [lprev [Hlprev Hcprev]].
+        assert (Hprevp : prev <> p).
+        { intros ->. assert (lprev = old) by congruence. subst lprev. apply mem_false in Emo. tauto. }
+        destruct (wf_down t W prev lprev Hlprev) as [Hndp _].
+        set (lcur := filter (notin D) lprev).
+        assert (Hcur : sm_get (t_children u) prev = Some lcur).
+        { rewrite (j_c _ _ _ _ _ J prev). destruct (key_eqb_spec prev p); [congruence|]. rewrite Hlprev. reflexivity. }
+        assert (Hccur : In c lcur).
+        { apply filter_In. split; [exact Hcprev|]. unfold notin. rewrite HmD. reflexivity. }
+        destruct (In_position c lcur Hccur) as [i Hi]. pose proof (position_Some c lcur i Hi) as Hni.
+        assert (Hndcur : NoDup lcur) by (apply NoDup_filter; exact Hndp).
+        destruct (sm_set_Ok (t_children u) prev (vec_remove lcur i)) as [c1 Hc1]; [congruence|].
+        destruct (sm_set_Ok (t_parents u) c None Hlive_tt) as [p1 Hp1].
+        assert (Hmd : mark_dirty u prev = Ok tt).
+        { unfold mark_dirty. rewrite (j_nodes _ _ _ _ _ J).
+          pose proof (children_live t prev lprev W Hlprev) as Hl. unfold tlive in Hl.
+          destruct (sm_get (t_nodes t) prev) eqn:E; [|congruence]. rewrite (sm_contains_get E). reflexivity. }
+        assert (Hrc : remove_child u prev c = Ok (mkTree (t_nodes u) (t_ctx u) c1 p1, RKey c)).
+        { unfold remove_child, sm_index. rewrite Hcur. cbn [of_opt bind]. rewrite Hi. cbn [of_opt bind].
+          unfold remove_child_at_index, sm_index. rewrite Hcur. cbn [of_opt bind].
+          assert (Elt : N.leb (N.of_nat (length lcur)) (N.of_nat i) = false).
+          { apply N.leb_gt. pose proof (nth_error_Some_lt Hni). lia. }
+          rewrite Elt, Nat2N.id, Hni. cbn [of_opt bind]. rewrite Hc1. cbn [bind]. rewrite Hp1. cbn [bind].
+          rewrite Hmd. reflexivity. }
+        rewrite Hrc. cbn [bind snd fst t_parents].
+        destruct (sm_set_Ok p1 c (Some p)) as [p2 Hp2]; [rewrite (sm_get_set_same Hp1); congruence|].
+        rewrite Hp2. cbn [bind]. apply Hfin.
+        destruct J. constructor; cbn [set_parents_map t_nodes t_ctx t_children t_parents]; auto.
+        -- rewrite (shape_set Hc1). exact j_sc0.
+        -- apply (sm_set_preserves_inv Hc1). exact j_ic0.
+        -- rewrite (shape_set Hp2), (shape_set Hp1). exact j_sp0.
+        -- apply (sm_set_preserves_inv Hp2), (sm_set_preserves_inv Hp1). exact j_ip0.
+        -- intros q. rewrite (sm_get_set q Hc1). destruct (key_eqb_spec prev q) as [<-|Hq].
+           ++ destruct (key_eqb_spec prev p); [congruence|]. rewrite Hlprev. simpl. f_equal.
+              rewrite filter_notin_snoc. apply (vec_remove_retain lcur i c Hndcur Hni).
+           ++ rewrite j_c0. destruct (key_eqb_spec q p) as [->|Hqp]; [reflexivity|].
+              destruct (sm_get (t_children t) q) as [lq|] eqn:E; [|reflexivity]. simpl. f_equal. symmetry.
+              apply filter_notin_snoc_notin. intros Hin. apply Hq. eapply (WF_disjoint t prev q lprev lq c); eauto.
+        -- intros x. rewrite (sm_get_set x Hp2). destruct (key_eqb_spec c x) as [<-|Hx].
+           ++ rewrite mem_snoc_same. reflexivity.
+           ++ rewrite (sm_get_set x Hp1). destruct (key_eqb_spec c x); [congruence|].
+              rewrite mem_snoc_other by congruence. apply j_p0.
+      * (* c is a root *)
+        cbn [bind]. destruct (sm_set_Ok (t_parents u) c (Some p) Hlive_tt) as [p1 Hp1]. rewrite Hp1. cbn [bind].
+        apply Hfin. eapply loop_skip; eauto.
+        intros q lq Hq Hlq Hin. destruct (wf_down t W q lq Hlq) as [_ Hd]. specialize (Hd c Hin). congruence.
+Qed.
+
+Lemma set_children_refines t p cs : WF t -> pre (abs t) (OSetChildren p cs) -> refines t (OSetChildren p cs).
+Proof.
+  intros W [Hp [Hnd Hcs]]. apply abs_live in Hp. destruct (live_children t p W Hp) as [old Hold].
+  destruct (wf_down t W p old Hold) as [Hndo Hdo].
+  destruct (sm_set_all_spec old (t_parents t) None) as [p1 [Hp1 [Gp1 [_ Ip1]]]].
+  { intros k Hk. rewrite (Hdo k Hk). congruence. }
+  assert (J0 : loopJ t (set_parents_map t p1) p old []).
+  { constructor; cbn [set_parents_map t_nodes t_ctx t_children t_parents]; auto; try apply W.
+    - apply (shape_set_all _ _ _ _ Hp1).
+    - apply Ip1, W.
+    - intros q. destruct (key_eqb_spec q p) as [->|Hq]; [exact Hold|].
+      destruct (sm_get (t_children t) q) as [lq|]; [|reflexivity]. simpl. f_equal.
+      induction lq as [|x r IH]; simpl; [reflexivity|]. f_equal. exact IH. }
+  destruct (set_children_loop_spec t p old W Hold cs [] _ J0 Hnd) as [t2 [E2 J2]].
+  { intros c Hc. split; [apply abs_live; apply Hcs; exact Hc | tauto]. }
+  simpl in J2. destruct J2.
+  assert (Hc2p : sm_get (t_children t2) p = Some old) by (rewrite j_c0, key_eqb_refl; reflexivity).
+  destruct (sm_set_Ok (t_children t2) p cs) as [c1 Hc1]; [congruence|].
+  unfold refines. cbn [step spec_step fst snd]. unfold set_children, sm_index. rewrite Hold. cbn [of_opt bind].
+  rewrite Hp1. cbn [bind]. rewrite E2. cbn [bind]. rewrite Hc2p. cbn [of_opt bind]. rewrite Hc1. cbn [bind].
+  assert (Hmd : mark_dirty t2 p = Ok tt).
+  { unfold mark_dirty. rewrite j_nodes0. unfold tlive in Hp.
+    destruct (sm_get (t_nodes t) p) eqn:E; [|congruence]. rewrite (sm_contains_get E). reflexivity. }
+  rewrite Hmd. cbn [bind].
+  eexists _, _. split; [reflexivity|].
+  assert (Gc : forall q, sm_get c1 q = if key_eqb q p then Some cs else option_map (filter (notin cs)) (sm_get (t_children t) q)).
+  { intros q. rewrite (sm_get_set q Hc1), (key_eqb_sym p q). destruct (key_eqb q p) eqn:E; [reflexivity|].
+    rewrite j_c0, E. reflexivity. }
+  split; [|split; [|reflexivity]].
+  - destruct t2 as [n2 x2 ch2 pa2]. cbn [set_children_map t_nodes t_ctx t_children t_parents] in *. subst n2.
+    apply (WF_update t c1 pa2 x2 W); auto.
+    + rewrite (shape_set Hc1). exact j_sc0.
+    + apply (sm_set_preserves_inv Hc1). exact j_ic0.
+    + intros q lq Hq. rewrite Gc in Hq. destruct (key_eqb_spec q p) as [->|Hqp].
+      * inversion Hq; subst lq. split; [exact Hnd|]. intros x Hx. rewrite j_p0.
+        apply mem_In in Hx. rewrite Hx. reflexivity.
+      * destruct (sm_get (t_children t) q) as [lq0|] eqn:Hq0; [|discriminate]. inversion Hq; subst lq.
+        destruct (wf_down t W q lq0 Hq0) as [Hn0 Hd0]. split; [apply NoDup_filter; exact Hn0|].
+        intros x Hx. apply filter_In in Hx. destruct Hx as [Hx Hxn]. unfold notin in Hxn. rewrite j_p0.
+        destruct (mem x cs); [discriminate|].
+        destruct (mem x old) eqn:Emo; [|apply Hd0; exact Hx].
+        apply mem_In in Emo. exfalso. apply Hqp. eapply (WF_disjoint t q p lq0 old x); eauto.
+    + intros x q Hx. rewrite j_p0 in Hx. rewrite Gc. destruct (mem x cs) eqn:Emc.
+      * inversion Hx; subst q. rewrite key_eqb_refl. exists cs. split; [reflexivity|]. apply mem_In. exact Emc.
+      * destruct (mem x old) eqn:Emo; [discriminate|].
+        destruct (wf_up t W x q Hx) as [lq0 [Hq0 Hxq]]. destruct (key_eqb_spec q p) as [->|Hqp].
+        -- assert (lq0 = old) by congruence. subst lq0. apply mem_false in Emo. tauto.
+        -- rewrite Hq0. simpl. exists (filter (notin cs) lq0). split; [reflexivity|]. apply filter_In.
+           split; [exact Hxq|]. unfold notin. rewrite Emc. reflexivity.
+  - destruct t2 as [n2 x2 ch2 pa2]. cbn [set_children_map t_nodes t_ctx t_children t_parents] in *. subst n2.
+    apply (equiv_update t c1 pa2 x2).
+    + intros k l Hk Hg. rewrite Gc in Hg. cbn [kids]. destruct (key_eqb k p); [congruence|].
+      destruct (sm_get (t_children t) k) as [lk|] eqn:E; [|discriminate]. inversion Hg.
+      rewrite (kids_abs t k lk E). reflexivity.
+    + intros k Hk. rewrite Gc. destruct (key_eqb k p); [congruence|].
+      destruct (live_children t k W Hk) as [lk E]. rewrite E. simpl. congruence.
+Qed.
